@@ -1544,10 +1544,15 @@ XPathProcessorImpl::Argument()
 {
     assert(m_expression != 0);
 
-    if (m_requireLiterals == false ||
-        isCurrentLiteral() == true)
+    if (m_requireLiterals == false)
     {
         Expr();
+    }
+    else if (isCurrentLiteral() == true)
+    {
+        // Just the literal, and not an expression
+        // that starts with one...
+        PrimaryExpr();
     }
     else
     {
